@@ -19,7 +19,9 @@ Sub-claims (DESIGN §4 C13), all evaluated on the REAL `speckit` (SpectrumAnalyz
   with non-finite samples near the end.
 Correspondence: (a) the aliasing rules of the hand model `Model.heapStep` run over the GENERATED constructor op lists (Gen/Ctor.lean)
 predict whether `an.data` shares memory with the caller's array / whether the caller's buffer is written; compared with
-`np.shares_memory` / a byte comparison on the real constructor; (b) generated attribute table vs the real `__getattr__`.
+`np.shares_memory` / a byte comparison on the real constructor; (b) generated attribute table vs the real `__getattr__`;
+(c) the generated constructor DECISIONS (Gen/CtorShape.lean: validation, config table, shape dispatch, sanitising map) executed by the driver
+vs the real `SpectrumAnalyzer(data, fs, **kw)` over shape classes x containers x dtypes x non-finite placements x keyword subsets.
 """
 from __future__ import annotations
 
@@ -37,7 +39,7 @@ from . import _an
 PROP = "C13"
 # obligations of the properties this one is downstream of are obligations of this check too (vk.runner.collect_obligations)
 UPSTREAM = ["C05"]
-GEN_REGIONS = ["Ctor", "Attrs", "KernelHeap", "ResultQueries"]
+GEN_REGIONS = ["Ctor", "Attrs", "KernelHeap", "ResultQueries", "CtorShape"]
 THEOREMS = {
     # compute() zero-fills non-finite statistics: over strict partial reals every stored XX, YY, XY, S12, S2, M2 is finite (translated each run)
     "SpecKitV.Props.ResultQueriesGen": ["gen_compute_sanitised", "gen_compute_assemble_eq_model"],
@@ -49,6 +51,15 @@ THEOREMS = {
     # buffer the kernel was handed (simulation concrete <= may-alias abstraction, then evaluation of the generated op lists)
     "SpecKitV.Props.KernelHeapGen": ["cRun_sub_aRun", "np_kernels_abstract_clean", "np_kernels_write_no_caller_buffer", "view_gather_would_write",
                                      "np_kernels_do_write"],
+    # the DECISIONS of SpectrumAnalyzer.__init__ (validation, config table, rank / shape dispatch, sanitising map), translated each run, proved equal
+    # to the specification Model.ctorSpec (through Model.channelOf / Model.sanitise) for all inputs; layout / sanitise theorems restated for it
+    "SpecKitV.Props.CtorShapeGen": ["CtorShapeGen." + t for t in (
+        "gen_ctor_eq_model", "gen_ctor_call_eq_model", "gen_ctor_defaults", "gen_ctor_defaults_eq_model", "gen_ctor_positional",
+        "gen_ctor_default_bmin_real", "gen_ctor_config_table", "gen_ctor_shape", "gen_ctor_1d", "gen_ctor_rows", "gen_ctor_2x2_rows",
+        "gen_ctor_cols", "gen_ctor_layout_independent", "gen_ctor_rows_cols_same", "gen_ctor_invalid_shape_raises",
+        "gen_ctor_invalid_shape_valueerror", "gen_ctor_valid_no_raise", "gen_sanitise_elem", "gen_ctor_sanitise_eq_zero_fill",
+        "gen_ctor_stored_record", "gen_ctor_stored_finite", "gen_ctor_1d_real", "finiteLaws_real", "finiteLaws_preal",
+        "spec_shape_transpose", "spec_shape_zero_fill", "spec_shape_none_iff", "spec_ok", "head_fs")],
     # C13FINITE-PLACEHOLDER (filled in below when SpecKitV/Props/C13Finite.lean exists; see FINITE_THEOREMS)
 }
 # Props/C13Finite.lean (attribute table instantiated at strict partial reals) is written by another task. The theorems it is planned
@@ -80,7 +91,22 @@ CONTRACTS = ["NumPy aliasing rules assumed by Model.heapStep: np.asarray returns
              "fancy indexing x[idx] (core._gather_segments) returns a copy, so the NumPy backend's in-place detrending cannot reach the record",
              "NumPy aliasing rules assumed by Model.KOp (Model/KHeap.lean; validated each run with np.shares_memory): advanced indexing copies; basic "
              "indexing, .T, .real, .imag, reshape are views; `a op= b` and `a[...] = b` write a's buffer; np.nan_to_num(copy=False) returns its "
-             "argument after sanitising it in place; arithmetic, reductions, np.empty/exp/arange allocate; np.asarray may return its argument"]
+             "argument after sanitising it in place; arithmetic, reductions, np.empty/exp/arange allocate; np.asarray may return its argument",
+             "SpecKitV/Np/CtorShape.lean (vocabulary of the translated constructor Gen/CtorShape.lean; exercised each run by the `ctorcall` differential): "
+             "CS.asarray = np.asarray(data) IS the input model (shape + index function; nested lists/tuples take their nesting shape, a scalar/None is 0-d; "
+             "ragged nesting raises inside NumPy and is outside the model); CS.ascontiguousarray_f64 = np.ascontiguousarray(x, dtype=np.float64) at the value "
+             "level (identity on the elements: the dtypes used convert exactly; at least 1-d); CS.NdArr.ndim / shapeAt / T / item / len = x.ndim, "
+             "x.shape[k] (IndexError out of range), x.T (axes reversed), x[k] (IndexError), len(x) (TypeError for 0-d); CS.NdArr.all / any / map = "
+             "np.all / np.any / elementwise application; CS.isfinite / isnan / isinf = np.isfinite / np.isnan / np.isinf on one element (x-x==0, x!=x); "
+             "CS.nanToNum = np.nan_to_num(x, nan=, posinf=, neginf=) on one element, CS.f64max = np.finfo(float64).max (NumPy's default for posinf/-neginf)",
+             "Python builtins on argument values (CS.PyVal: None | bool | int | float | str | callable by name | other truthy object): CS.pyFloat = float(v) "
+             "(None/callable/object: TypeError; str: CPython's parse, supplied by the harness), CS.pyInt = int(v) (truncation; NaN: ValueError, +-Inf: "
+             "OverflowError; str: CPython's parse), CS.pyBool = bool(v) (NaN truthy), CS.pyStr = str(v) (repr of floats/objects supplied by the harness), "
+             "CS.npIsfinite = np.isfinite(scalar) (non-numbers: TypeError), CS.pyCmp = ordering between numbers (non-numbers: TypeError; ints exactly, "
+             "otherwise as floats, exact for |int| < 2^53), CS.pyEq / pyIn = == / `in` over a literal tuple; CS.dictSet = d[k] = v (replace in place or "
+             "append); CS.kwGet + ctor_call = keyword binding (unknown keyword: TypeError; missing: the signature's default); short-circuit and/or/not with "
+             "exceptions (CS.andE / orE / bind); `self._process_window_config()` / `self._process_scheduler_config()` enter as parameters config -> config "
+             "or raise (they touch self.config / self.verbose only: checked on the AST each run; translated separately in Gen/ConfigGlue)"]
 ASSUMPTIONS = ["finiteness (sub-claim d) is demanded for records whose amplitude a satisfies 1e-65 <= a <= 1e60 or whose squares underflow to exactly "
                "zero (a = 1e-300): outside, IEEE overflow/underflow of XX*YY and |XY|^2 is outside the model (DESIGN §4 C13-d). Observed on the real "
                "code and reported as a note each run: amplitudes in about [1e-160, 1e-85] give NaN coherence (XX*YY underflows to 0 behind a guard "
@@ -1783,6 +1809,320 @@ def kheap_correspondence(ctx, P: C.Part) -> None:
                                                      "for the op list generated from its source"})
 
 
+
+# ---------------------------------------------------------------- correspondence: the GENERATED constructor decisions (Gen/CtorShape.lean) vs the real constructor
+CTOR_EXC = ("ValueError", "TypeError", "IndexError", "OverflowError", "AttributeError", "KeyError")
+CTOR_STEP_KEYS = {"win_func", "alpha", "final_olap", "win_name", "scheduler_func", "scheduler_name"}
+
+
+def _hx(s: str) -> str:
+    return s.encode("ascii").hex()
+
+
+def _custom_win(n):            # a user window / scheduler: only their identity matters to the constructor
+    return np.ones(n)
+
+
+def _custom_sched(**kw):
+    return {}
+
+
+class _Tok:
+    """Python argument values <-> driver tokens (n | b: | i: | r: | s: | f:<name> | o:<id>)"""
+
+    def __init__(self):
+        self.fn: Dict[int, Tuple[str, Any]] = {}
+        self.obj: Dict[int, Tuple[int, Any]] = {}
+        self.strs: List[str] = []
+        self.others: List[Any] = []
+
+    def enc(self, v: Any) -> str:
+        if v is None:
+            return "n"
+        if isinstance(v, bool):
+            return "b:1" if v else "b:0"
+        if isinstance(v, int):
+            return f"i:{v}"
+        if isinstance(v, float):
+            self.others.append(v)
+            return "r:" + C.f2h(v)
+        if isinstance(v, str):
+            self.strs.append(v)
+            return "s:" + _hx(v)
+        if callable(v):
+            if id(v) not in self.fn:
+                self.fn[id(v)] = (f"fn{len(self.fn)}", v)
+            self.others.append(v)
+            return "f:" + _hx(self.fn[id(v)][0])
+        if id(v) not in self.obj:
+            self.obj[id(v)] = (len(self.obj), v)
+        self.others.append(v)
+        return f"o:{self.obj[id(v)][0]}"
+
+    def same(self, tok: str, real: Any) -> bool:
+        """does the driver's token describe exactly the real Python value (type included)"""
+        if tok == "n":
+            return real is None
+        k, _, body = tok.partition(":")
+        if k == "b":
+            return isinstance(real, bool) and real == (body == "1")
+        if k == "i":
+            return type(real) is int and real == int(body)
+        if k == "r":
+            return type(real) is float and C.f2h(real) == body
+        if k == "s":
+            return type(real) is str and _hx(real) == body
+        if k == "f":
+            if any(_hx(nm) == body and real is o for nm, o in self.fn.values()):
+                return True
+            try:                                      # a default of the signature: the expression as written in the source, in the module's namespace
+                import speckit.analysis as A
+                return eval(bytes.fromhex(body).decode(), vars(A)) is real
+            except Exception:
+                return False
+        if k == "o":
+            return any(str(i) == body and real is o for i, o in self.obj.values())
+        return False
+
+
+def ctor_case_inputs(rng: np.random.Generator, idx: int) -> Dict[str, Any]:
+    """one constructor call: data (shape class, container, dtype, non-finite placement) and keyword arguments"""
+    shape_cls = ["1d", "2xN", "Nx2", "2x2", "1xN", "Nx1", "3xN", "Nx3", "0d", "3d", "none", "str"][idx % 12] if idx < 96 else \
+        str(rng.choice(["1d", "1d", "2xN", "2xN", "Nx2", "Nx2", "2x2", "1xN", "Nx1", "3xN", "Nx3", "0d", "3d"]))
+    N = int([0, 1, 2, 3, int(rng.integers(4, 40))][(idx // 12) % 5] if idx < 96 else rng.choice([0, 1, 2, 3, int(rng.integers(4, 40))]))
+    shp = {"1d": (N,), "2xN": (2, N), "Nx2": (N, 2), "2x2": (2, 2), "1xN": (1, N), "Nx1": (N, 1), "3xN": (3, N), "Nx3": (N, 3), "0d": (),
+           "3d": [(2, 2, 2), (1, 2, N), (2, N, 2), (N, 2, 1)][int(rng.integers(4))], "none": (), "str": ()}[shape_cls]
+    dt = [np.float64, np.float64, np.float32, np.int64, np.int32, np.bool_][int(rng.integers(6))]
+    M = int(np.prod(shp)) if shp else 1
+    vals = (rng.permutation(M) + 1).astype(np.float64)                  # distinct integers: exact provenance of every stored sample
+    if dt is np.bool_:
+        vals = (vals % 2)
+    a = vals.reshape(shp).astype(dt)
+    pattern = "none"
+    if np.dtype(dt).kind == "f" and M > 0 and rng.random() < 0.6:
+        pattern = str(rng.choice(["nan", "inf", "-inf", "mixed", "all", "last"]))
+        flat = a.reshape(-1)
+        bad = {"nan": [np.nan], "inf": [np.inf], "-inf": [-np.inf]}.get(pattern, [np.nan, np.inf, -np.inf])
+        pos = np.arange(M) if pattern == "all" else ([M - 1] if pattern == "last" else rng.choice(M, size=min(M, int(rng.integers(1, 4))), replace=False))
+        for q in pos:
+            flat[q] = bad[int(rng.integers(len(bad)))]
+        a = flat.reshape(shp)
+    container = str(rng.choice(["C", "F", "Tview", "list", "tuple", "list_of_arrays", "strided"]))
+    if shape_cls == "none":
+        data: Any = None
+    elif shape_cls == "str":
+        data = "abc"
+    elif container == "F":
+        data = np.asfortranarray(a)
+    elif container == "Tview" and a.ndim >= 2:
+        data = np.ascontiguousarray(a.T).T
+    elif container == "list":
+        data = a.tolist()
+    elif container == "tuple":
+        data = tuple(a.tolist()) if a.ndim == 1 else (tuple(tuple(r) if isinstance(r, list) else r for r in a.tolist()) if a.ndim >= 2 else a.tolist())
+    elif container == "list_of_arrays" and a.ndim == 2:
+        data = [np.array(r) for r in a]
+    elif container == "strided" and a.ndim >= 1 and M > 0:
+        big = np.zeros(tuple(2 * d for d in shp), dtype=dt)
+        big[tuple(slice(None, None, 2) for _ in shp)] = a
+        data = big[tuple(slice(None, None, 2) for _ in shp)]
+    else:
+        data = a
+    band = (0.1, 0.2)
+    pools = {
+        "olap": (["default", 0.5, 0, 0.3], ["0.3", 1.5, None, -0.1]),
+        "bmin": ([1.0, 2, 3.7, True], ["2.5", None, "abc", float("nan")]),
+        "Lmin": ([1, 2, 7, 2.7, True], ["3", "3.5", float("nan"), float("inf"), None, -1.5, (1,)]),
+        "Jdes": ([10, 500, 7.9], [None, "12", float("-inf")]),
+        "Kdes": ([1, 100, 2.5], ["x", None]),
+        "num_patch_pts": ([None, 50, 3.9, 0], ["4", "z", float("nan")]),
+        "order": ([-1, 0, 1, 2, 1.0, True, 2.0, False], [3, None, "0", 1.5, -2, float("nan")]),
+        "psll": ([200, 100.5, 60], [None]),
+        "win": (["hann", "kaiser", np.hanning, _custom_win], ["nonexistent", 5]),
+        "scheduler": (["ltf", "lpsd", "vectorized_ltf", "new_ltf", _custom_sched], ["zzz", None]),
+        "band": ([None, band], [band]),
+        "force_target_nf": ([False, True, None, 1, 0, "x", "", 0.0], [float("nan"), band, _custom_win]),
+        "backend": (["auto", "numpy", "numba"], [3, None, 1.5, True, _custom_win]),
+        "verbose": ([False, None, 0, ""], [True, 1, "yes"]),
+    }
+    fs_pool = ([1.0, 2, True, 1000.0, 0.5], [0, -1.0, float("nan"), float("inf"), None, "1", False, _custom_win])     # (a tuple as fs is outside the CS.PyVal contract: np.isfinite of a tuple is an array)
+    wild = rng.random() < 0.3
+    pick = lambda pool: pool[1][int(rng.integers(len(pool[1])))] if (wild and rng.random() < 0.5) else pool[0][int(rng.integers(len(pool[0])))]
+    kw: Dict[str, Any] = {}
+    if rng.random() < 0.7:
+        for k in rng.choice(sorted(pools), size=int(rng.integers(1, 6)), replace=False):
+            kw[str(k)] = pick(pools[str(k)])
+    if rng.random() < 0.03:
+        kw["no_such_keyword"] = 1
+    return {"shape_cls": shape_cls, "N": N, "dtype": np.dtype(dt).name, "pattern": pattern, "container": container, "data": data, "fs": pick(fs_pool), "kw": kw}
+
+
+def ctor_defaults_check(ctx, P: C.Part) -> None:
+    """the signature as the translator read it (Gen.ctor_positional / Gen.ctor_kwdefaults, through the driver) vs inspect.signature of the real class"""
+    import inspect
+    import speckit.analysis as A
+    P.cases += 1
+    P.hit("ctor.defaults")
+    try:
+        r = ctx.driver.ask("ctordefaults")
+        parts = dict(t.split("=", 1) for t in r.split())
+        pos = [bytes.fromhex(h).decode() for h in parts["pos"].split(",") if h]
+        kws = [(bytes.fromhex(kv.split("=", 1)[0]).decode(), kv.split("=", 1)[1]) for kv in parts["kw"].split(";") if kv]
+    except Exception as ex:
+        P.disagreements.append({"op": "ctordefaults", "error": f"driver: {ex!r}"})
+        return
+    sig = inspect.signature(A.SpectrumAnalyzer.__init__)
+    rpos = [n for n, q in sig.parameters.items() if q.kind == q.POSITIONAL_OR_KEYWORD and n != "self"]
+    rkw = [(n, q.default) for n, q in sig.parameters.items() if q.kind == q.KEYWORD_ONLY]
+    bad = []
+    if pos != rpos:
+        bad.append({"positional": pos, "real": rpos})
+    if [k for k, _ in kws] != [k for k, _ in rkw]:
+        bad.append({"keywords": [k for k, _ in kws], "real": [k for k, _ in rkw]})
+    else:
+        for (k, tok), (_, d) in zip(kws, rkw):
+            if tok.startswith("f:"):
+                name = bytes.fromhex(tok[2:]).decode()
+                try:
+                    obj = eval(name, vars(A))          # the default expression as written in the source, resolved in the module's namespace
+                except Exception:
+                    obj = object()
+                ok = obj is d
+            else:
+                ok = _Tok().same(tok, d)
+            if not ok:
+                bad.append({"keyword": k, "generated_default": tok, "real_default": repr(d)})
+    if bad:
+        P.disagreements.append({"op": "ctordefaults", "mismatch": bad})
+
+
+def ctor_correspondence(ctx, P: C.Part, rng: np.random.Generator) -> None:
+    """real `SpectrumAnalyzer(data, fs, **kw)` vs Gen.ctor_call executed by the driver: raised-or-not and the exception class, iscsd, nx,
+    fs, verbose, _plan_cache, the stored data / x1 / x2 bit for bit (elements are distinct integers, so provenance is exact), and the config
+    entries the constructor itself writes (value AND type; key order). `_process_window_config` / `_process_scheduler_config` are parameters
+    of the translated constructor: the driver runs them as identity, or as `raise X` when the real run raised X inside one of them."""
+    import traceback
+    from speckit.analysis import SpectrumAnalyzer
+    ctor_defaults_check(ctx, P)
+    quiet()
+    logging.disable(logging.CRITICAL)
+    try:
+        n = ctx.scale(420, 4000)
+        for idx in range(n):
+            case = ctor_case_inputs(rng, idx)
+            data, fs, kw = case["data"], case["fs"], case["kw"]
+            desc = {"op": "ctorcall", "index": idx, "shape_cls": case["shape_cls"], "N": case["N"], "dtype": case["dtype"], "pattern": case["pattern"],
+                    "container": case["container"], "fs": repr(fs), "kw": {k: repr(v) for k, v in kw.items()}}
+            try:
+                with warnings.catch_warnings():
+                    warnings.simplefilter("ignore")
+                    arr = np.asarray(data)
+            except Exception:
+                P.hit("ctor.outside-model(np.asarray raises)")
+                continue
+            if arr.dtype.kind not in "fiub" and arr.ndim in (1, 2):
+                P.hit("ctor.outside-model(non-numeric elements)")
+                continue
+            elems = arr.astype(np.float64).ravel() if arr.dtype.kind in "fiub" else np.full(max(1, arr.size), np.nan)
+            # the real constructor
+            real: Dict[str, Any] = {}
+            try:
+                with warnings.catch_warnings():
+                    warnings.simplefilter("ignore")
+                    an = SpectrumAnalyzer(data, fs, **kw)
+                real["ok"] = an
+            except Exception as ex:
+                frames = [f.name for f in traceback.extract_tb(ex.__traceback__)]
+                cls = type(ex).__name__
+                real["exc"] = cls if cls in CTOR_EXC else "Other"
+                real["where"] = ("wstep" if "_process_window_config" in frames else "sstep" if "_process_scheduler_config" in frames
+                                 else "init" if "__init__" in frames else "call")
+            # the generated constructor
+            T = _Tok()
+            toks = [T.enc(fs)] + [f"{_hx(k)} {T.enc(v)}" for k, v in kw.items()]
+            ftab, itab, stab = [], [], []
+            for s_ in dict.fromkeys(T.strs):
+                try:
+                    ftab.append(f"h{_hx(s_)} {C.f2h(float(s_))}")
+                except Exception:
+                    ftab.append(f"h{_hx(s_)} -")
+                try:
+                    itab.append(f"h{_hx(s_)} {int(s_)}")
+                except Exception:
+                    itab.append(f"h{_hx(s_)} -")
+            seen = set()
+            for o in list(T.others):
+                t = T.enc(o)
+                if t not in seen:
+                    seen.add(t)
+                    stab.append(f"{t} h{_hx(str(o).encode('ascii', 'replace').decode())}")
+            wst = f"raise:{real['exc']}" if real.get("where") == "wstep" else "ok"
+            sst = f"raise:{real['exc']}" if real.get("where") == "sstep" else "ok"
+            line = " ".join(["ctorcall", C.iarr(arr.shape), C.arr(elems), toks[0], str(len(kw))] + toks[1:]
+                            + [str(len(ftab))] + ftab + [str(len(itab))] + itab + [str(len(stab))] + stab + [wst, sst])
+            try:
+                out = ctx.driver.ask(line)
+            except Exception as ex:
+                P.disagreements.append(dict(desc, error=f"driver: {ex!r}"))
+                return
+            P.cases += 1
+            P.hit(f"ctor.shape.{case['shape_cls']}.N{case['N'] if case['N'] <= 3 else 'n'}")
+            P.hit(f"ctor.container.{case['container']}")
+            P.hit(f"ctor.dtype.{case['dtype']}")
+            P.hit(f"ctor.pattern.{case['pattern']}")
+            for k in kw:
+                P.hit(f"ctor.kw.{k}")
+            P.nontrivial.add(("ctor", case["shape_cls"], min(case["N"], 4), case["container"], case["dtype"], case["pattern"], tuple(sorted(kw))))
+            bad: List[str] = []
+            if "exc" in real:
+                P.hit(f"ctor.outcome.raise.{real['exc']}@{real['where']}")
+                if out != f"raise {real['exc']}":
+                    bad.append(f"real raised {real['exc']} (in {real['where']}), generated constructor: {out[:80]}")
+            elif not out.startswith("ok "):
+                bad.append(f"real constructed an analyzer, generated constructor: {out[:80]}")
+                P.hit("ctor.outcome.ok")
+            else:
+                P.hit("ctor.outcome.ok")
+                an = real["ok"]
+                f = dict(t.split("=", 1) for t in out.split()[1:])
+                bits = lambda a_: ",".join(C.f2h(v) for v in np.asarray(a_, dtype=np.float64).ravel())
+                shp = lambda a_: ",".join(str(d) for d in np.shape(a_))
+                if f["iscsd"] != ("1" if an.iscsd else "0"):
+                    bad.append(f"iscsd {an.iscsd} vs {f['iscsd']}")
+                if type(an.nx) is not int or f["nx"] != str(an.nx):
+                    bad.append(f"nx {an.nx!r} vs {f['nx']}")
+                if type(an.fs) is not float or f["fs"] != C.f2h(an.fs):
+                    bad.append(f"fs {an.fs!r} vs {C.h2f(f['fs'])!r}")
+                if type(an.verbose) is not bool or f["verbose"] != ("1" if an.verbose else "0"):
+                    bad.append(f"verbose {an.verbose!r} vs {f['verbose']}")
+                if (an._plan_cache is None) != (f["pc"] == "n"):
+                    bad.append(f"_plan_cache {an._plan_cache!r} vs {f['pc']}")
+                if f["dshape"] != shp(an.data) or f["data"] != bits(an.data):
+                    bad.append(f"stored data: shape {shp(an.data)} vs {f['dshape']}; elements {np.asarray(an.data).ravel()[:8].tolist()} vs "
+                               f"{[C.h2f(h) for h in f['data'].split(',')[:8] if h]}")
+                if f["x1"] != shp(an.x1) + "|" + bits(an.x1):
+                    bad.append(f"x1: real {np.asarray(an.x1)[:8].tolist()} (shape {shp(an.x1)}) vs generated {f['x1'][:120]}")
+                rx2 = (shp(an.x2) + "|" + bits(an.x2)) if hasattr(an, "x2") else "n"
+                if f["x2"] != rx2:
+                    bad.append(f"x2: real {rx2[:80]} vs generated {f['x2'][:80]}")
+                gcfg = [(bytes.fromhex(kv.split("=", 1)[0]).decode(), kv.split("=", 1)[1]) for kv in f["cfg"].split(";") if kv]
+                rkeys = [k for k in an.config if k not in CTOR_STEP_KEYS]
+                if [k for k, _ in gcfg] != rkeys:
+                    bad.append(f"config keys {rkeys} vs generated {[k for k, _ in gcfg]}")
+                else:
+                    for k, tok in gcfg:
+                        if not T.same(tok, an.config[k]):
+                            bad.append(f"config[{k!r}] = {an.config[k]!r} ({type(an.config[k]).__name__}) vs generated {tok}")
+            if bad:
+                P.disagreements.append(dict(desc, mismatch=bad[:4], data=repr(data)[:300]))
+                if len(P.disagreements) > 12:
+                    return
+            elif len([s_ for s_ in P.samples if isinstance(s_, dict) and s_.get("op") == "ctorcall"]) < 2 and case["pattern"] != "none" and kw:
+                P.sample(dict(desc, outcome=out[:160]))
+    finally:
+        logging.disable(logging.NOTSET)
+
+
 def correspondence(ctx) -> C.Part:
     """(a) Model.heapStep aliasing rules over the generated constructor ops vs np.shares_memory / byte comparison on the real constructor;
        (b) generated Lean attribute table (Float, driver) vs the real SpectrumResult.__getattr__ incl. degenerate (zero) bins"""
@@ -1791,6 +2131,8 @@ def correspondence(ctx) -> C.Part:
     heap_correspondence(ctx, P)
     kheap_correspondence(ctx, P)
     _an.attr_correspondence(ctx, P, DENS + ERRS, ctx.scale(30, 300))
+    # generated constructor decisions vs the real constructor; its random stream is a child generator seeded at the END of the existing streams
+    ctor_correspondence(ctx, P, np.random.default_rng(int(ctx.rng.integers(0, 2 ** 62))))
     return P
 
 
